@@ -463,6 +463,7 @@ type recHub struct {
 	issuedBy map[string]string // secret id -> uuid of the backend instance that issued it
 	misrouted []string         // revocations that arrived at a backend instance other than the issuing one
 	failRevoke bool
+	renewHook  func(ctx context.Context, req *logical.Request) // set before the requests start, called inside a renewal
 	honourCtx  bool // a revocation arriving with a cancelled context fails (like a backend that hands ctx to its database)
 	special  map[string]*logical.Paths // by backend type name
 	nextID   int64
@@ -578,6 +579,9 @@ func (b *recBE) HandleRequest(ctx context.Context, req *logical.Request) (*logic
 	h.mu.Unlock()
 	if hook != nil && !call.Revoke && !call.Renew && req.Operation != logical.RollbackOperation {
 		hook("handle", ctx, req)
+	}
+	if rh := h.renewHook; rh != nil && call.Renew {
+		rh(ctx, req) // the secrets engine is working on a renewal: a scheduling point for harnesses that own the schedule
 	}
 	defer func() {
 		if h.physSeq != nil {
